@@ -59,9 +59,32 @@ func renameLike(actual, ref ast.Node) bool {
 	if len(a) != len(r) {
 		return false
 	}
+	// locals that carry a name the reference also uses keep it (so a mere reordering of
+	// declarations renames nothing); only the others are paired, by rank among themselves
+	refNames, actNames := map[string]int{}, map[string]int{}
+	for _, o := range r {
+		refNames[o.Name]++
+	}
+	for _, o := range a {
+		actNames[o.Name]++
+	}
+	var a2, r2 []*ast.Object
+	for _, o := range a {
+		if refNames[o.Name] == 0 {
+			a2 = append(a2, o)
+		}
+	}
+	for _, o := range r {
+		if actNames[o.Name] == 0 {
+			r2 = append(r2, o)
+		}
+	}
+	if len(a2) != len(r2) {
+		return false
+	}
 	to := map[*ast.Object]string{}
-	for i := range a {
-		to[a[i]] = r[i].Name
+	for i := range a2 {
+		to[a2[i]] = r2[i].Name
 	}
 	// two different locals must not end up with one name in the same function unless the
 	// reference does the same (shadowing): the reference's own names guarantee that
@@ -109,4 +132,63 @@ func normalizeFuncs(f *ast.File, refName string, funcs [][2]string) {
 			renameLike(a, r)
 		}
 	}
+}
+
+// normTree: a control-flow normal form used to compare a function with its reference copy
+// when the function is modelled by hand (its text is pinned). Statements after an `if` are
+// pushed into both branches, `!=` and `!` conditions are turned around, an `else` after a
+// returning branch disappears: early-return style, nested style and inverted guards of the
+// same decision tree all print as the same string. Loops, selects and other compound
+// statements are compared as text.
+func normTree(fset *token.FileSet, list []ast.Stmt) string {
+	if len(list) == 0 {
+		return "END"
+	}
+	s, rest := list[0], list[1:]
+	switch t := s.(type) {
+	case *ast.ReturnStmt:
+		return "RET{" + stmtText(fset, t) + "}"
+	case *ast.BlockStmt:
+		return normTree(fset, append(append([]ast.Stmt{}, t.List...), rest...))
+	case *ast.IfStmt:
+		if t.Init != nil {
+			cp := *t
+			cp.Init = nil
+			return "SEQ{" + stmtText(fset, t.Init) + ";" + normTree(fset, append([]ast.Stmt{&cp}, rest...)) + "}"
+		}
+		cond, neg := t.Cond, false
+		for {
+			if p, ok := cond.(*ast.ParenExpr); ok {
+				cond = p.X
+				continue
+			}
+			if u, ok := cond.(*ast.UnaryExpr); ok && u.Op == token.NOT {
+				cond, neg = u.X, !neg
+				continue
+			}
+			break
+		}
+		ctext := stmtText(fset, &ast.ExprStmt{X: cond})
+		if b, ok := cond.(*ast.BinaryExpr); ok && b.Op == token.NEQ {
+			eq := *b
+			eq.Op = token.EQL
+			ctext, neg = stmtText(fset, &ast.ExprStmt{X: &eq}), !neg
+		}
+		thenL := append(append([]ast.Stmt{}, t.Body.List...), rest...)
+		var elseL []ast.Stmt
+		switch e := t.Else.(type) {
+		case nil:
+			elseL = rest
+		case *ast.BlockStmt:
+			elseL = append(append([]ast.Stmt{}, e.List...), rest...)
+		default:
+			elseL = append([]ast.Stmt{e}, rest...)
+		}
+		a, b := normTree(fset, thenL), normTree(fset, elseL)
+		if neg {
+			a, b = b, a
+		}
+		return "IF{" + ctext + "?" + a + ":" + b + "}"
+	}
+	return "SEQ{" + stmtText(fset, s) + ";" + normTree(fset, rest) + "}"
 }
